@@ -26,11 +26,10 @@ def resolve(w, a):
     if "lit" in a:
         return a["lit"]
     if "proxy" in a:
-        s = core.sdn()
         x, i = a["proxy"]
-        p = s.OuterPin.from_instance_and_inner_pin(w[x], w[i])
-        p.__dict__["_vproxy"] = True
-        return p
+        return w.proxy(x, i)
+    if "gen" in a:  # a one-shot iterator
+        return (y for y in [resolve(w, x) for x in a["gen"]])
     if "list" in a:
         return [resolve(w, x) for x in a["list"]]
     if "set" in a:
@@ -122,6 +121,11 @@ def _domain(w, d, acc, limits):
                 yield {coll: list(c)}
         if limits.get("empty_bulk", True):
             yield {coll: []}
+        if coll == "list" and items and limits.get("odd_bulk", True):
+            yield {"list": [items[0], items[0]]}   # the same element named twice
+            yield {"gen": [items[0]]}              # a generator instead of a list
+            if len(items) > 1:
+                yield {"gen": [items[0], items[1]]}
     elif tag == "reorder":  # ("reorder", attr, kinds): derived from the container in acc[0]
         attr, kinds = d[1], d[2]
         cur = [w.idx(x) for x in getattr(w[acc[0]], attr)]
@@ -316,6 +320,8 @@ def _fmt(a):
         return "OuterPin.from_instance_and_inner_pin(pool[%d], pool[%d])" % tuple(a["proxy"])
     if "list" in a:
         return "[" + ", ".join(_fmt(x) for x in a["list"]) + "]"
+    if "gen" in a:
+        return "(x for x in [" + ", ".join(_fmt(x) for x in a["gen"]) + "])"
     if "set" in a:
         return "{" + ", ".join(_fmt(x) for x in a["set"]) + "}"
     return repr(a)
